@@ -125,6 +125,10 @@ func (repo *TxRepository) Add(ctx context.Context, txid bitcoin.Hash32, trusted,
 		return false, false, err
 	}
 
+	if len(data)%bitcoin.Hash32Size != 0 {
+		return false, false, errors.New(fmt.Sprintf("TX file %08x has invalid size : %d", height, len(data)))
+	}
+
 	// Check for already existing
 	for i := 0; i < len(data); i += bitcoin.Hash32Size {
 		if bytes.Equal(data[i:i+bitcoin.Hash32Size], txid[:]) {
@@ -166,6 +170,10 @@ func (repo *TxRepository) Remove(ctx context.Context, txid bitcoin.Hash32, heigh
 		return false, err
 	}
 
+	if len(data)%bitcoin.Hash32Size != 0 {
+		return false, errors.New(fmt.Sprintf("TX file %08x has invalid size : %d", height, len(data)))
+	}
+
 	// Check for match to remove
 	for i := 0; i < len(data); i += bitcoin.Hash32Size {
 		if bytes.Equal(data[i:i+bitcoin.Hash32Size], txid[:]) {
@@ -198,6 +206,10 @@ func (repo *TxRepository) Contains(ctx context.Context, txid bitcoin.Hash32, hei
 	}
 	if err != nil {
 		return false, err
+	}
+
+	if len(data)%bitcoin.Hash32Size != 0 {
+		return false, errors.New(fmt.Sprintf("TX file %08x has invalid size : %d", height, len(data)))
 	}
 
 	// Check for already existing
